@@ -115,6 +115,22 @@ def instances(tier, seed):
             for qa in range(n):
                 for la in lib.label_structures(kinds, bonds_a, 1, qa, values=vals, cap=1, stride_seed=seed):
                     add("mpdm_from_mps", kinds=kinds, bonds_a=bonds_a, qntot=1, qnidx_a=qa, qn_a=la, kind="real")
+    # long thin chains (11 sites = 12 bonds, bond dimension 1, hand-made labels of two different product configurations): anything that enumerates, sorts or
+    # formats per-bond data is exercised beyond one digit
+    def long_labels(occ, centre, n=11):
+        tot = sum(occ)
+        left = [sum(occ[:i]) for i in range(n + 1)]
+        return [[[left[i] if i <= centre else tot - left[i]]] for i in range(n + 1)]
+    kinds11 = tuple(["e"] * 11)
+    b11 = tuple([1] * 12)
+    occ_a = [0, 1, 0, 0, 1, 0, 0, 0, 1, 0, 0]
+    occ_b = [1, 0, 0, 1, 0, 0, 0, 0, 0, 1, 0]
+    for qa, qb in ((0, 10), (10, 10), (4, 7)):
+        for op in ("add", "sub", "dot"):
+            add(op, kinds=kinds11, bonds_a=b11, bonds_b=b11, qntot=3, qnidx_a=qa, qnidx_b=qb, qn_a=long_labels(occ_a, qa), qn_b=long_labels(occ_b, qb), kind="real")
+        for op in ("scale", "conj", "copy"):
+            add(op, kinds=kinds11, bonds_a=b11, qntot=3, qnidx_a=qa, qn_a=long_labels(occ_a, qa), kind="real")
+        add("move_qnidx", kinds=kinds11, bonds_a=b11, qntot=3, qnidx_a=qa, qn_a=long_labels(occ_a, qa), kind="real", dst=(qa + 5) % 11)
     if tier == "quick":
         # complex entries and prefactors for every operation on the two-site structures (a missing or doubled conjugation is invisible with real numbers);
         # the thorough tier uses complex entries throughout
